@@ -95,3 +95,47 @@ def self_attr_stores_from_params(init: Fn) -> dict:
                     used = {x.id for x in ast.walk(n.value) if isinstance(x, ast.Name)} & params
                     out.setdefault(t.attr, set()).update(used)
     return out
+
+
+def locals_by_init(fn: Fn, pred: Callable[[ast.AST], bool]) -> List[str]:
+    """Names of fn's own locals with an initialiser (any direct assignment in fn) satisfying pred(value).
+    Role inference: checkers name closure state by what it is initialised to and how it is used, never by identifier."""
+    out: List[str] = []
+    for n in fn.direct_nodes():
+        if isinstance(n, (ast.Assign, ast.AnnAssign)) and n.value is not None:
+            ts = n.targets if isinstance(n, ast.Assign) else [n.target]
+            for t in ts:
+                if isinstance(t, ast.Name) and pred(n.value) and t.id not in out:
+                    out.append(t.id)
+    return out
+
+
+def cell_name(e: ast.AST) -> Optional[str]:
+    """`x` or `x[0]` -> 'x' (closure state is kept in plain nonlocals or one-element lists)."""
+    if isinstance(e, ast.Subscript) and isinstance(e.value, ast.Name):
+        return e.value.id
+    if isinstance(e, ast.Name):
+        return e.id
+    return None
+
+
+def names_assigned_const(fn: Fn, value) -> List[str]:
+    """Cells (x / x[0]) that fn assigns the constant `value`."""
+    out: List[str] = []
+    for n in fn.direct_nodes():
+        if isinstance(n, ast.Assign) and isinstance(n.value, ast.Constant) and n.value.value is value:
+            for t in n.targets:
+                c = cell_name(t)
+                if c and c not in out:
+                    out.append(c)
+    return out
+
+
+def names_augmented(fn: Fn, op) -> List[str]:
+    out: List[str] = []
+    for n in fn.direct_nodes():
+        if isinstance(n, ast.AugAssign) and isinstance(n.op, op):
+            c = cell_name(n.target)
+            if c and c not in out:
+                out.append(c)
+    return out
